@@ -322,6 +322,29 @@ def full_copy_vouched(ctx: Ctx, rule: str, ev: Evaluator, enum, full_name: str) 
     return n
 
 
+def puts_overwrite(ctx: Ctx, rule: str) -> int:
+    """every `dbutils.fs.put` of the DBFS store module passes overwrite=True"""
+    rep = ctx.report
+    prog = ctx.prog
+    cls = prog.classes.get(DBFS)
+    if cls is None:
+        raise AnchorError(f"{DBFS} not found")
+    n13 = 0
+    for g in [x for x in prog.funcs.values() if x.module is cls.module]:
+        for c_ in g.own_nodes():
+            if isinstance(c_, ast.Call) and isinstance(c_.func, ast.Attribute) and c_.func.attr == "put" and ".fs" in unparse(c_.func, 100):
+                n13 += 1
+                ow = [k.value for k in c_.keywords if k.arg == "overwrite"] + ([c_.args[2]] if len(c_.args) > 2 else [])
+                desc = f"`{unparse(c_, 60)}` replaces an existing file"
+                if ow and isinstance(ow[0], ast.Constant) and ow[0].value is True:
+                    rep.ok(rule, g.qname, desc, g.loc(c_))
+                else:
+                    rep.bad(rule, g.qname, desc, g.loc(c_), [f"{g.loc(c_)}: overwrite is {unparse(ow[0]) if ow else 'not given (default False)'}",
+                            "the redirect record of a path that is already committed cannot be replaced: keeping it again with changed code raises FileAlreadyExistsException; under "
+                            "'full' the data copy is already the new blob while the record still names the old one"], stmt_key(c_), what="dbutils.fs.put without overwrite: an existing record cannot be replaced")
+    return n13
+
+
 def run(ctx: Ctx) -> None:
     rep = ctx.report
     prog = ctx.prog
@@ -500,6 +523,26 @@ def run(ctx: Ctx) -> None:
     rep.rule("C19.R14", "load works whenever the record exists: fetch_paths answers every requested path (the result is filed inside the loop over the paths)")
     n14 = every_path_answered(ctx, "C19.R14")
     rep.floor("C19.R14", n14, 1)
+    from .c09 import load_uses_normalised_path
+    rep.rule("C19.R16", "as C09.R12: load works whenever the record exists, whatever the spelling of the path (str, DDSPath, pathlib.Path): the answer of fetch_paths is read back under "
+                        "the normalised path it was asked for")
+    n16 = load_uses_normalised_path(ctx, "C19.R16")
+    rep.floor("C19.R16", n16, 1)
+    from .c17 import codec_duals
+    rep.rule("C19.R17", "as C17.R4/R5: keep returns correct values under all commit types - every codec (the string codec also decodes the legacy reference dbfs.string) reads back what it wrote")
+    codec_duals(ctx, "C19.R17", "C19.R17")
+    rep.rule("C19.R18", "the metadata is the commit marker: has_blob looks at the metadata only - it neither copies nor decodes the blob (None is a legitimate value; a path whose blob is "
+                        "reported absent is left out of the commit)")
+    hb_effs = m.effects_of("has_blob")
+    hb = cls.methods["has_blob"]
+    heavy = [e for e in hb_effs if e.kind not in ("HEAD", "PROBE")]
+    if heavy:
+        rep.bad("C19.R18", hb.qname, "DBFS has_blob reads the metadata only", hb.loc(), [f"{e.where()}: {e!r}" for e in heavy[:4]] + [
+            "a kept function that returns None: fetch_blob answers None for it, has_blob reports it absent, its path is left out of sync_paths: under 'full' neither copy nor record is written "
+            "and dds.load of the path fails"], "dbfs-presence-by-value", what="DBFS has_blob decodes the blob: a stored None is reported absent")
+    else:
+        rep.ok("C19.R18", hb.qname, f"DBFS has_blob reads the metadata only ({[repr(e) for e in hb_effs]})", hb.loc())
+    rep.floor("C19.R18", 1 if hb_effs else 0, 1)
     rep.rule("C19.R15", "'full' leaves a copy of each kept result: sync_paths skips the copy of a path only when the commit type is not full, or when the redirect record "
                         "(a field other than the key) or the data directory vouches for the copy - the record alone is also written by links-only commits")
     n15 = full_copy_vouched(ctx, "C19.R15", ev, enum, full[0]) if full else 0
@@ -509,19 +552,7 @@ def run(ctx: Ctx) -> None:
     n12 = announced_types_accepted(ctx, "C19.R12")
     rep.floor("C19.R12", n12, 1)
     rep.rule("C19.R13", "every `dbutils.fs.put` of the store overwrites: redirect records and metadata are re-written when a path is kept again with changed code")
-    n13 = 0
-    for g in [x for x in prog.funcs.values() if x.module is cls.module]:
-        for c_ in g.own_nodes():
-            if isinstance(c_, ast.Call) and isinstance(c_.func, ast.Attribute) and c_.func.attr == "put" and ".fs" in unparse(c_.func, 100):
-                n13 += 1
-                ow = [k.value for k in c_.keywords if k.arg == "overwrite"] + ([c_.args[2]] if len(c_.args) > 2 else [])
-                desc = f"`{unparse(c_, 60)}` replaces an existing file"
-                if ow and isinstance(ow[0], ast.Constant) and ow[0].value is True:
-                    rep.ok("C19.R13", g.qname, desc, g.loc(c_))
-                else:
-                    rep.bad("C19.R13", g.qname, desc, g.loc(c_), [f"{g.loc(c_)}: overwrite is {unparse(ow[0]) if ow else 'not given (default False)'}",
-                            "the redirect record of a path that is already committed cannot be replaced: keeping it again with changed code raises FileAlreadyExistsException; under "
-                            "'full' the data copy is already the new blob while the record still names the old one"], stmt_key(c_), what="dbutils.fs.put without overwrite: an existing record cannot be replaced")
+    n13 = puts_overwrite(ctx, "C19.R13")
     rep.floor("C19.R13", n13, 1)
 
     # ---- R7: one copy location per path ----------------------------------------------------------------------------
